@@ -77,6 +77,15 @@ pub enum Driver {
     WriteFmt(usize), // split point of the two fragments (a char boundary)
     /// `write!` with a literal-only format string (index into LITERALS); the input is that literal
     FmtLiteral(usize),
+    /// `write!(s, "[{:>w$}]{}{:?}", text, 'c', 'd')`: padding, `char` arguments and Debug quotes reach the
+    /// writer through `fmt::Write::write_char`; the bytes offered are what std's formatting produces
+    FmtPad,
+}
+
+/// what `Driver::FmtPad` offers for a given text
+pub fn fmt_pad_bytes(text: &str) -> Vec<u8> {
+    let w = text.chars().count() + 2;
+    format!("[{:>w$}]{}{:?}", text, 'c', 'd', w = w).into_bytes()
 }
 
 /// What the stream under test is supposed to do with the bytes.
@@ -136,6 +145,19 @@ fn check_delivered(mode: Mode, input: &[u8], consumed: usize, sh: &Rc<RefCell<Sh
 }
 
 pub fn run_case(mode: Mode, input: &[u8], driver: Driver, script: Script) -> (Result<(), String>, Script) {
+    // for the padded-format driver the oracle's input is what std formatting produces from `input`
+    let padded;
+    let (input, pad_text): (&[u8], Option<&str>) = if driver == Driver::FmtPad {
+        match std::str::from_utf8(input) {
+            Ok(t) => {
+                padded = fmt_pad_bytes(t);
+                (&padded[..], Some(t))
+            }
+            Err(_) => return (Err("machinery: FmtPad needs UTF-8 input".into()), script),
+        }
+    } else {
+        (input, None)
+    };
     let sh = Rc::new(RefCell::new(Shared { script, ..Default::default() }));
     let boxed: Box<dyn Write> = Box::new(Scripted(sh.clone()));
     let r = (|| -> Result<(), String> {
@@ -229,7 +251,7 @@ pub fn run_case(mode: Mode, input: &[u8], driver: Driver, script: Script) -> (Re
                 check_delivered(mode, input, input.len(), &sh, "at the end of the protocol")?;
                 Ok(())
             }
-            Driver::WriteAll | Driver::WriteFmt(_) | Driver::FmtLiteral(_) => {
+            Driver::WriteAll | Driver::WriteFmt(_) | Driver::FmtLiteral(_) | Driver::FmtPad => {
                 let mut strip_s;
                 let mut auto_s;
                 let stream: &mut dyn Write = match mode {
@@ -249,6 +271,11 @@ pub fn run_case(mode: Mode, input: &[u8], driver: Driver, script: Script) -> (Re
                 begin_call(&sh);
                 let res = match driver {
                     Driver::FmtLiteral(i) => write_literal(stream, i),
+                    Driver::FmtPad => {
+                        let t = pad_text.unwrap_or("");
+                        let w = t.chars().count() + 2;
+                        write!(stream, "[{:>w$}]{}{:?}", t, 'c', 'd', w = w)
+                    }
                     Driver::WriteAll => stream.write_all(input),
                     Driver::WriteFmt(cut) => {
                         let a = std::str::from_utf8(&input[..cut]).map_err(|_| "machinery: fragment not UTF-8".to_string())?;
@@ -301,7 +328,7 @@ pub const SYMS: [&[u8]; 7] = [b"a", "é".as_bytes(), b"\x1b", b"[", b"1", b"m", 
 
 pub fn drivers_for(tokens: &[usize]) -> Vec<Driver> {
     let input: Vec<u8> = tokens.iter().flat_map(|&i| SYMS[i].to_vec()).collect();
-    let mut d = vec![Driver::WriteProtocol, Driver::AutoNeverProtocol, Driver::WriteAll];
+    let mut d = vec![Driver::WriteProtocol, Driver::AutoNeverProtocol, Driver::WriteAll, Driver::FmtPad];
     // token boundaries (char boundaries) for fmt fragments and vectored cuts
     let mut bounds = vec![0];
     let mut p = 0;
@@ -349,6 +376,8 @@ pub fn parse_driver(s: &str) -> Driver {
         Driver::AutoNeverProtocol
     } else if s.starts_with("Vectored") {
         Driver::Vectored(nums[0], nums[1])
+    } else if s.starts_with("FmtPad") {
+        Driver::FmtPad
     } else if s.starts_with("FmtLiteral") {
         Driver::FmtLiteral(nums[0])
     } else if s.starts_with("WriteAll") {
@@ -372,6 +401,7 @@ pub fn driver_label(mode: Mode, driver: Driver) -> String {
         Driver::WriteAll => "write_all".to_string(),
         Driver::WriteFmt(_) => "write_fmt".to_string(),
         Driver::FmtLiteral(_) => "write_fmt-literal".to_string(),
+        Driver::FmtPad => "write_fmt-padding-and-chars".to_string(),
     };
     format!("{m}/{d}")
 }
